@@ -195,9 +195,10 @@ func TestC05(t *testing.T) {
 	vals := c05Values()
 	n := 0
 	mine := func() bool { n++; return n%nshards == shard }
+	var padSame bool
 	run := func(v reflect.Value, plan c05Plan, k int, long bool, what string) {
 		obj, exp := c05Render(v, plan)
-		opt := refcodec.EncOptions{PadExact: k, ForceLongObject: long}
+		opt := refcodec.EncOptions{PadExact: k, ForceLongObject: long, PadSame: padSame}
 		b, failure, harness := c05Check([]*av.V{obj}, []interface{}{exp}, opt, refcodec.Canonical{})
 		if harness != "" {
 			harnessBug(t, "C05", "%s (%s %v)", harness, v.Type().Name(), plan)
@@ -284,6 +285,29 @@ func TestC05(t *testing.T) {
 			}
 		}
 	}
+	// (4) the same definition sent several times in front of the class (every copy takes an index), and
+	// hundreds of definitions in a row in front of one value
+	for vi, v := range vals {
+		full := make([]int, v.NumField())
+		for i := range full {
+			full[i] = i
+		}
+		padSame = true
+		for _, k := range []int{1, 2, 3, 15, 16, 40} {
+			if mine() {
+				run(v, c05Plan{order: full}, k, k >= 16 || k%2 == 0, "repeated-definition")
+			}
+		}
+		padSame = false
+		if vi < 2 {
+			for _, k := range []int{511, 512, 600, 1500} {
+				if mine() {
+					run(v, c05Plan{order: full}, k, true, "hundreds-of-definitions-in-a-row")
+				}
+			}
+		}
+	}
+	r.Label("repeated definitions; 511..1500 definitions in a row")
 	// ---------------- random: several instances of several classes in one stream
 	cfg := zoo.DefaultCfg()
 	cfg.MaxBig, cfg.Budget, cfg.NoBigStrings, cfg.TimeMillis = 10, 80, true, true
